@@ -16,7 +16,8 @@ RULE = ("All expression ASTs over connectives not/and/or (optional 'not' on ever
         "list-of-terms form (plain terms, one term, terms written as '(left) op (right)'); each rendering evaluated by behave on ALL 256 subsets of the 8-tag universe and compared "
         "with an independent evaluator; str()/to_string() re-parsed must give the same table; {config.tags} "
         "substitution through Configuration.setup_tag_expression (with every process-wide protocol a previous Configuration "
-        "may have left behind). A case is non-trivial (and counted distinct by its "
+        "may have left behind), the placeholder in string form, one-item list form and in LISTS of 2-3 terms (several --tags "
+        "options; placeholder terms before, after and between plain terms, negated, inside 'or', twice). A case is non-trivial (and counted distinct by its "
         "AST) when its reference truth table is neither constant nor equal to the table of one bare operand.")
 ASSUMPTIONS = ["tag universe of 8 tags: wildcard extent and case-sensitivity are only witnessed by the tags in it",
                "operand texts outside the alphabet (e.g. quotes, backslash escapes other than '\\(' '\\)') are not covered"]
@@ -259,9 +260,19 @@ def check_config_pair(case):
         if a[0] == "lit":
             return a
         return (a[0],) + tuple(subst(x) for x in a[1:])
-    want = table(subst(cmd_ast))
-    text = r_min(cmd_ast)
-    cfg.tags = [text] if as_list else text
+    if cmd_ast[0] == "terms":
+        # several --tags options: a LIST of terms that are and-ed; the placeholder may stand in any of them
+        terms = cmd_ast[1:]
+        conj = subst(terms[0])
+        for t in terms[1:]:
+            conj = ("and", conj, subst(t))
+        want = table(conj)
+        text = [r_min(t) for t in terms]
+        cfg.tags = list(text)
+    else:
+        want = table(subst(cmd_ast))
+        text = r_min(cmd_ast)
+        cfg.tags = [text] if as_list else text
     v = []
     try:
         cfg.setup_tag_expression()
@@ -320,5 +331,13 @@ def run(ctx):
     pairs = [(c, t, l, lo) for c in small + [None] for t in templates for l in (False, True)
              for lo in (None, "v1", "v2", "auto_detect")]
     ctx.sweep(check_config_pair, pairs, chunk=32, name="config.tags substitution")
+    PH = ("lit", "{config.tags}")
+    term_alphabet = [PH, ("not", PH), ("lit", "c"), ("not", ("lit", "c")), ("lit", "x-1"), ("or", PH, ("lit", "c")),
+                     ("lit", "a*")]
+    term_lists = [("terms",) + tl for n in (2, 3) for tl in itertools.product(term_alphabet, repeat=n)
+                  if "{config.tags}" in repr(tl) and (n == 2 or repr(tl).count("{config.tags}") <= 2)]
+    cfgs = small if not ctx.quick else list(asts(1, ("a", "b*"))) + list(asts(2, ("a", "b")))[::3]
+    ctx.sweep(check_config_pair, [(c, tl, True, lo) for c in cfgs for tl in term_lists for lo in (None, "v1")],
+              chunk=64, name="config.tags substitution in lists of terms (several --tags options)")
     ctx.guard(len(ctx.nt) > 1000, "at least 1000 distinct non-trivial expressions")
     ctx.guard(len(ctx.outcomes) > 50, "at least 50 distinct truth tables observed")
